@@ -170,6 +170,10 @@ pub fn generate(r: &mut Rng, _tier: Tier, _group: u64) -> serde_json::Value {
     if r.chance(1, 6) {
         flags.extend(["--pre-release-num".into(), r.pick(&["0", "1", "42", "4294967295"]).to_string()]);
     }
+    if r.chance(1, 8) {
+        // a final release given as an override on top of whatever the source says
+        flags.extend(["--tag-version".into(), format!("v{}.{}.{}", 20 + r.below(9), r.below(9), r.below(9))]);
+    }
     let last = actors.iter().map(|a| a.clock).max().unwrap_or(0);
     let sim_now = match r.below(8) {
         0 => 0,
@@ -521,7 +525,8 @@ pub fn execute(ctx: &Ctx, scv: &serde_json::Value, rd: &RunDir, stats: &mut Stat
                     continue;
                 }
                 let tc = *e.nearest.iter().next().unwrap();
-                let tag = e.acceptable.iter().next().unwrap().clone();
+                let repo_tag = e.acceptable.iter().next().unwrap().clone();
+                let tag = flag_val(&sc.flags, "--tag-version").map(|s| s.to_string()).unwrap_or(repo_tag);
                 let dist = w.ancestors(h).difference(&w.ancestors(tc)).count() as u64;
                 let dirty = w.is_dirty();
                 let branch = w.head_branch();
@@ -646,7 +651,11 @@ pub fn execute(ctx: &Ctx, scv: &serde_json::Value, rd: &RunDir, stats: &mut Stat
             if !ns.dirty.is_empty() {
                 args.push(ns.dirty.clone());
             }
-            args.extend(sc.flags.iter().cloned());
+            let mut fl = sc.flags.clone();
+            if let Some(i) = fl.iter().position(|f| f == "--tag-version") {
+                fl.drain(i..(i + 2).min(fl.len()));
+            }
+            args.extend(fl);
             let a: Vec<&str> = args.iter().map(|s| s.as_str()).collect();
             let o = run_zerv(ctx, rd, &ZervCall::new(&a, Path::new("/"), now), stats);
             stats.event(format!("none-state {ni} {f} {state} -> {} {:?} {}", o.status_str(), short(&o.out_str(), 200), short(&o.err_str(), 200)));
